@@ -232,8 +232,10 @@ class C18Check(object):
                 roll = r.random()
                 if enable["fmm"] and roll < 0.5:
                     assembler = "fmm"
-                elif roll < 0.85:
+                elif roll < 0.82:
                     assembler = r.choice(["dense", "default_nonlocal"])
+                elif roll < 0.87:
+                    assembler = "only_diagonal_part"
                 else:
                     assembler = "only_singular_part"
             op = {"t": "create_op", "spec": spec, "dom": di, "dual": ti, "assembler": assembler,
